@@ -1565,3 +1565,49 @@ for _var in ["div_imag", "div_general", "mul_recip", "imag_pow_sub", "neg_imag"]
         return _cplx_lit(var)
 
     reg(f"cplx_literal_{_var}", "c09 q", scalar="complex128", itypes=("cell", "exterior_facet"))(_mk)
+
+
+# ---- coefficients eliminated by preprocessing in front of survivors; non-square tensor constants ---
+
+@reg("coef_eliminated_before_survivor", "c05 c06 c01 q", itypes=("cell",))
+def _():
+    m = mesh("triangle")
+    V = space(m)
+    v = TestFunction(V)
+    f = ufl.Coefficient(V)
+    u0 = ufl.Coefficient(V)
+    g = ufl.Coefficient(space(m, "DG", 1))
+    return ufl.derivative(f * g * u0 * v * dx, u0, TrialFunction(V))
+
+
+@reg("coef_two_eliminated_between_survivors", "c05 c06 c02 q", itypes=("cell", "exterior_facet"))
+def _():
+    m = mesh("triangle")
+    V = space(m)
+    v = TestFunction(V)
+    a_, b_, c_, d_, e_ = (ufl.Coefficient(V) for _ in range(5))
+    F = a_ * b_ * v * dx + c_ * e_ * e_ * v * ds + d_ * v * dx
+    return ufl.derivative(F, a_, TrialFunction(V)) + ufl.derivative(F, c_, TrialFunction(V))
+
+
+@reg("constants_nonsquare_shapes", "c01 c05 c08 c18 q")
+def _():
+    m = mesh("triangle")
+    V = space(m)
+    v = TestFunction(V)
+    K1 = ufl.Constant(m, shape=(3, 2))
+    K2 = ufl.Constant(m, shape=(2, 1))
+    K3 = ufl.Constant(m, shape=(1, 3))
+    k = ufl.Constant(m)
+    s = sum((1.0 + 2 * i + 7 * j) * K1[i, j] for i in range(3) for j in range(2))
+    return s * v * dx + K2[1, 0] * K3[0, 2] * k * v * dx + (K3[0, 1] + K2[0, 0]) * v * dx
+
+
+@reg("constants_nonsquare_facets", "c02 c05 c08 q", itypes=("exterior_facet", "interior_facet"))
+def _():
+    m = mesh("interval")
+    V = space(m, "DG", 1)
+    u, v = TrialFunction(V), TestFunction(V)
+    K1 = ufl.Constant(m, shape=(4, 3))
+    K2 = ufl.Constant(m, shape=(2, 3, 1))
+    return K1[3, 2] * K1[0, 1] * u * v * ds + (K2[1, 2, 0] + K1[2, 0]) * u("+") * v("-") * dS
